@@ -333,6 +333,9 @@ class UserCode:
         if keys & DROP_FNS:
             for ta in c.get("targs", []):
                 if ty_mentions_user(ta) and ta.get("needs_drop", True):
+                    # `drop(x)` written out is the same event as x's scope-end drop: the same site exemption applies
+                    if self._is_benign_site(body, "drop " + ta["s"]):
+                        continue
                     return ("U2-dropfn", c["full"])
             return None
         if c.get("trait") in self.user_traits and any(ta.get("param") or ta.get("dyn") for ta in c.get("targs", [])):
@@ -398,6 +401,8 @@ class UserCode:
         keys = callee_paths(c)
         if keys & DROP_FNS:
             for ta in c.get("targs", []):
+                if self._is_benign_site(body, "drop " + ta["s"]):
+                    continue
                 out.extend((g, "glue") for g in self.glue_bodies(ta))
             return out
         b = self.prog.body_for_callee(c)
@@ -872,6 +877,18 @@ class Slice:
                             and int(rest[0][1:]) < len(rv["ops"]):
                         # `x = (a, b)` read as `x.1`: follow b only
                         o = rv["ops"][int(rest[0][1:])]
+                        if o.get("k") == "const":
+                            res["consts"].append(o)
+                        elif op_place(o) is not None:
+                            pl = op_place(o)
+                            for f in place_fields(pl):
+                                res["fields"].add(f)
+                            todo.append((pl["l"], tuple(place_fields(pl)) + tuple(rest[1:])))
+                    elif k == "aggr" and rest and rv.get("adt") and isinstance(rv.get("fields"), list) and \
+                            rest[0].startswith(rv["adt"] + "::") and rest[0][len(rv["adt"]) + 2:] in rv["fields"] and \
+                            len(rv["fields"]) == len(rv["ops"]):
+                        # `x = S { a, b }` read as `x.b`: follow b only
+                        o = rv["ops"][rv["fields"].index(rest[0][len(rv["adt"]) + 2:])]
                         if o.get("k") == "const":
                             res["consts"].append(o)
                         elif op_place(o) is not None:
